@@ -11,8 +11,8 @@ for d in sorted(glob.glob(os.path.join(ROOT, "seeded", "*"))):
     full = json.load(open(rp)) if os.path.exists(rp) else {}
     r = full.get("latest", {})
     hist = full.get("history", [])
-    demo_ok = any(h.get("demo_ok") for h in hist)
-    h0 = hist[0] if hist else {}
+    demo_ok = bool(full.get("demo_confirmed")) or any(h.get("demo_ok") for h in hist)
+    h0 = full.get("first") or (hist[0] if hist else {})
     own = h0.get("checks", {}).get(m["property"], {})
     k0 = (own.get("first_replay") or {})
     first_sight = "yes" if own.get("rc") == 1 and k0.get("kind") != "no-failing-input-found" else ("pins only" if own.get("rc") == 1 else "no")
@@ -48,7 +48,7 @@ stats = (f"{n} changes are kept (one per property and round, several rounds; {re
          f"source pin (`no-failing-input-found`), and {no} were missed; after the additions below "
          + ("all of them are" if now_missed == 0 else f"all but {now_missed} are") +
          " caught by the quick tier of their own property's check with a failing input (`tools/regress_seeded.sh` re-evaluates every kept change against "
-         "the final checks). The first-sight rate stayed near forty per cent in every round: that is the honest measure of how much of the "
+         "the final checks). The first-sight rate stayed between a third and forty per cent in every round (the figures here are those of the very first evaluation of each change, kept in `result.json` under `first`): that is the honest measure of how much of the "
          "input / history / configuration space a fresh, targeted change can still find outside what the correspondence and the oracles exercise at "
          "any given moment; the theorems are unaffected by it (they are about the model) — it measures the tie to the code, and each round moved it.")
 sb, se = "<!-- SEEDED_STATS_BEGIN -->", "<!-- SEEDED_STATS_END -->"
